@@ -13,16 +13,13 @@ func handleRefference(m *MethodEvaluator) error {
 
 	if nextT.IsTargetIdentifier("[") {
 		m.ctx.IsBind = false
-		m.outerEval.Eval(m.parser, m.ctx, nextT)
 
-		return nil
+		return m.outerEval.Eval(m.parser, m.ctx, nextT)
 	}
 
 	targets := []string{"+", "-", "*", "/", "%"}
 	if nextT.IsTargetIdentifiers(targets) && slices.Contains(targets, m.method) {
-		m.outerEval.Eval(m.parser, m.ctx, nextT)
-
-		return nil
+		return m.outerEval.Eval(m.parser, m.ctx, nextT)
 	}
 
 	m.parser.Unget()
